@@ -1,9 +1,10 @@
 /* White-box glue for lfht_fuzz.cc (C, because rculfhash-internal.h is not C++-clean): a recording bucket allocator that
  * wraps the order allocator and validates the order arguments (C09), and read-only access to ht->size / in_progress_resize. */
-#include <urcu/urcu-memb.h>
+#include <urcu/urcu-mb.h>
 #include <urcu/rculfhash.h>
 #include <string.h>
 #include <stdio.h>
+#include <unistd.h>
 #include "rculfhash-internal.h"
 
 extern void glue_fail(const char *msg) __attribute__((noreturn));
@@ -12,14 +13,22 @@ void urcu_verif_cpu_relax(void) { __asm__ __volatile__("rep; nop" ::: "memory");
 static unsigned long rec_max_order; static char rec_have[MAX_TABLE_ORDER]; static int destroying;
 static const struct cds_lfht_mm_type recmm;
 
-void glue_rec_reset(unsigned long max_order) { rec_max_order = max_order; memset(rec_have, 0, sizeof rec_have); destroying = 0; }
+static int lazy_stuck;
+void glue_rec_reset(unsigned long max_order) { lazy_stuck = 0; rec_max_order = max_order; memset(rec_have, 0, sizeof rec_have); destroying = 0; }
 void glue_set_destroying(int v) { destroying = v; }
 int glue_rec_outstanding(void) { int n = 0; for (int i = 0; i < MAX_TABLE_ORDER; i++) n += __atomic_load_n(&rec_have[i], __ATOMIC_ACQUIRE); return n; }
 unsigned long glue_ht_size(struct cds_lfht *ht) { return ht->size; }
 unsigned long glue_max_table_order(void) { return MAX_TABLE_ORDER; }
 void glue_wait_resize(struct cds_lfht *ht)
-{	/* synchronisation only: let queued lazy resizes finish so that every run is deterministic */
-	for (long i = 0; (uatomic_read(&ht->resize_initiated) || ht->size != uatomic_read(&ht->resize_target)) && !uatomic_read(&ht->in_progress_destroy) && i < 400000000L; i++) caa_cpu_relax();
+{	/* synchronisation only: give a queued lazy resize a moment to finish so that runs are nearly deterministic (operations concurrent with a
+	 * resize are legal anyway). resize_initiated cannot be trusted: __cds_lfht_resize_lazy_launch() sets it after queueing the work, so it can
+	 * stay 1 with nothing queued, after which later lazy resizes are never launched and size != resize_target persists (observed on the
+	 * unchanged tree; affects only performance, not a listed property). Once that state is recognised we stop waiting for this table. */
+	if (lazy_stuck) return;
+	long i;
+	for (i = 0; ht->size != uatomic_read(&ht->resize_target) && !uatomic_read(&ht->in_progress_destroy) && i < 400; i++) { if (i < 200) caa_cpu_relax(); else usleep(20); }
+	if (i == 400) lazy_stuck = 1;
+	for (i = 0; uatomic_read(&ht->resize_initiated) && i < 2000; i++) caa_cpu_relax();
 }
 static void recmm_alloc_bucket_table(struct cds_lfht *ht, unsigned long order)
 {
